@@ -22,7 +22,7 @@ CHECKS = {
          "Every comparison chain of length 1-4 over mixed-sort operands in 14 connective/quantifier contexts, boundary numerals, placeholders of all sorts and connective nestings: the rendered TFF text is parsed by a reader written from the TPTP grammar and must have the same truth table as the source formula for all placeholder values.",
          "trusted: the TFF reader's grammar choices (stated in evidence), grounder, finite slice", "4 C06"),
  "C07": ("bounded-exhaustive enumeration of formulas x portfolios x strategies x assignments x all interpretations; truth-table equivalence (HT resp. classical)",
-         "Every formula of families A-G under each of the 3 portfolios and 3 strategies (composed exactly as procedures.rs does): output HT-equivalent (classically equivalent for classic) to the input under every free-variable assignment and interpretation, no new free variables; a violation is attributed to the first non-equivalent single rewrite step.",
+         "Every formula of families A-K (incl. capture pressure, fresh-name pressure, mixed-sort binder blocks; thorough: complete connective depth 2/3) under each of the 3 portfolios and 3 strategies (composed exactly as procedures.rs does): output HT-equivalent (classically equivalent for classic) to the input under every free-variable assignment and interpretation, no new free variables; a violation is attributed to the first non-equivalent single rewrite step.",
          "trusted: grounder with skeleton solver, finite slice with two-window stability", "4 C07"),
  "C08": ("bounded-exhaustive enumeration of rules x all HT interpretations; differential truth-table comparison natural/mu vs tau*",
          "For every rule of C01's alphabets, natural() (where it accepts) and mu() are grounded and compared with the tau* formula of the same rule on every HT interpretation, at two windows; mu must return one formula per rule and never panic.",
@@ -39,9 +39,9 @@ CHECKS = {
 }
 
 CHECKS.update({
- "C02": ("bounded-exhaustive enumeration of external tasks x flags x placeholder values x ALL interpretations of public and private predicates; refutation tables projected to the public vocabulary vs stable models with inputs of the reference semantics",
+ "C02": ("bounded-exhaustive enumeration of external tasks x flags x placeholder values x ALL interpretations of public and private predicates; refutation tables projected to the visible vocabulary (public predicates plus a specification's own; program-private predicates are projected away) vs stable models with inputs of the reference semantics",
          "Every accepted (program-or-specification, program, user guide) triple of the task alphabet under all 8 flag combinations and all placeholder values: the public projection of the interpretations refuting some forward/backward problem of the real ExternalEquivalenceTask::decompose() equals the reference notion of behavioural difference (stable models with inputs computed from HT truth tables, specification formulas by direction).",
-         "trusted: reference semantics and stable-model computation, grounder, finite slice; projection form (an extension to the private predicates exists) as stated in evidence", "4 C02"),
+         "trusted: reference semantics and stable-model computation, grounder, finite slice; projection form (an extension to the program-private predicates exists; a specification's own predicates are read on the interpretation itself, as the property states)", "4 C02"),
  "C11": ("exhaustive enumeration of small programs (dependency graphs), of rules (regularity) and of task/user-guide shapes (enforcement) against reference predicates",
          "is_tight() and has_private_recursion are compared with reference graph algorithms on every 1-2 rule program (and 3-rule / long-cycle families) over an abstract alphabet with all private sets; is_regular() with the manual's definition on C01's rules; for 17x(17+8)x12 task shapes x bypass flag, decompose() may return problems only if all listed conditions hold.",
          "trusted: reference predicates in engine/src/refsem.rs and c11.rs, written from the manual's definitions; enforcement is one-directional as the property is worded", "4 C11"),
@@ -49,14 +49,14 @@ CHECKS.update({
          "For every outline the emitted problem sequence is checked: axioms of each outline problem come only from the direction's premises (taken from the run without outline), accepted definitions and lemmas established earlier; final problems follow; invalid definitions must be refused; base/step obligations equal the environment-update semantics of F[n/N] and N >= n & F -> F[N+1/N] on all interpretations.",
          "trusted: the reference validity predicate for definitions, name-based identification of formulas (all inputs are named), grounder for the induction check", "4 C13"),
  "C14": ("bounded-exhaustive enumeration of syntax trees (via fully parenthesised text) and of token strings; parse-print-parse comparison",
-         "Every term of T_0..T_2 (+ depth-3 subset), every rule/program of C01's alphabets and every token string of <= 4 (5) tokens over the term and rule alphabets: whenever anthem accepts a text, printing the tree and parsing again yields the identical tree and printing is a fixpoint.",
+         "Every term of T_0..T_2 (+ depth-3 subset), every rule/program of C01's alphabets and every token string of <= 4 (thorough 7) tokens over the term and rule alphabets: whenever anthem accepts a text, printing the tree and parsing again yields the identical tree and printing is a fixpoint.",
          "trusted: nothing beyond anthem's own parser and printer (differential)", "4 C14"),
  "C15": ("bounded-exhaustive enumeration of formulas, terms, annotated formulas, user-guide entries and token strings; parse-print-parse comparison; outputs of translations/simplifications re-parsed",
-         "Every formula of families A-G, term shapes, annotated formulas with every role x direction x name, user-guide entries, token strings of <= 4 (5) tokens, and the output of tau-star/natural/mu/gamma/completion and of the portfolios: printing and re-parsing yields the identical tree.",
+         "Every formula of families A-G, term shapes, annotated formulas with every role x direction x name, user-guide entries, token strings of <= 4 (thorough 6) tokens, and the output of tau-star/natural/mu/gamma/completion and of the portfolios: printing and re-parsing yields the identical tree.",
          "trusted: nothing beyond anthem's parser and printer; two known findings listed in KNOWN_FINDINGS.txt", "4 C15"),
- "C16": ("bounded-exhaustive enumeration of token strings and of single/double token edits of all example files, each pushed through every later stage under catch_unwind",
+ "C16": ("bounded-exhaustive enumeration of token strings, of single/double token edits of all example files and of the semantic explorers' formula/program alphabets, each pushed through every later stage under catch_unwind, with a watchdog that turns a call that does not return into a verdict",
          "Every token string up to the length bound for the five parsers and every single-token edit (and nearby double deletion) of the example files: no panic in parsing or in any later stage (translations, simplification, formatting, analyses, task assembly), no input slower than 5 s; the CLI layer (cli/C16.sh) adds special files and exit-status checks.",
-         "trusted: catch_unwind + panic hook; claim limited to the stated edit/length bounds, not all byte strings; known findings (numeral/arity overflow) listed", "4 C16"),
+         "trusted: catch_unwind + panic hook, watchdog limit 30 s (quick) / 120 s (thorough) per input; claim limited to the stated edit/length bounds, not all byte strings; known findings (numeral/arity overflow) listed", "4 C16"),
  "C19": ("bounded-exhaustive enumeration of tasks x all interpretations; differential comparison of refutation tables across the 8 flag combinations",
          "For every accepted external task (incl. large numerals, division, undefined private predicates) and every strong task (x tau-star/mu) the set of interpretations over all predicates of the problems that refute some forward/backward problem is computed per flag combination and must be identical.",
          "trusted: grounder, finite slice with two-window stability; no reference semantics needed", "4 C19"),
@@ -65,13 +65,13 @@ CHECKS.update({
 
 CHECKS.update({
  "C10": ("stateless exploration of prover-completion schedules and outcome assignments on the real binary (controlled scheduler via a parking stand-in prover) + loom exploration of all interleavings (bounded preemptions) of the real prove_all source",
-         "Layer 2 runs the real `anthem verify` with a stand-in vampire that parks until released; every assignment of outcomes (Theorem, other SZS statuses, unknown word, no status line, non-UTF8 noise, non-zero exit, death by signal) to the problems and every release order for 1..8 prover instances is executed and judged (Success iff all Theorem, each problem handed over once and byte-identical to its saved file); plus the missing-executable configuration. Layer 1 compiles the repository's own prove_all text against loom and explores all schedules up to the preemption bound.",
+         "Layer 2 runs the real `anthem verify` with a stand-in vampire that parks until released; every assignment of outcomes (Theorem, other SZS statuses, unknown word, no status line, non-UTF8 noise, non-zero exit, death by signal) to the problems and every release order for 1..8 prover instances is executed and judged (Success iff all Theorem, each problem handed over once and byte-identical to its saved file); an external task with a proof outline (problem names with two indices) is explored with single-failure assignments and release orders of at most 1 (thorough 2) deviations; provers that arrive after all problems were released are answered at once and counted; plus the missing-executable configuration. Layer 1 compiles the repository's own prove_all text against loom and explores all schedules up to the preemption bound.",
          "trusted: the stand-in protocol (identifies problems by their stdin), loom port of threadpool 1.8.1 and the mpsc shim (validated against std on all operation sequences and against 200 free-running runs of the real implementation)", "4 C10"),
  "C18": ("exhaustive pass-by-pass re-execution of the fixpoint iteration with cycle detection over the formula families (model checking); every command of the corpus re-run under an enumerated list of harness-chosen hash seeds (getrandom interposed) plus one free-running process, outputs compared byte-wise",
          "Termination/idempotence: for every formula of families A-H (incl. deep chains needing one pass per level) x 3 portfolios the iteration is re-run pass by pass with cycle detection, the real apply_fixpoint must return the same formula and be idempotent. Determinism: every command on every corpus input is run once per hash seed of a fixed list (LD_PRELOAD shim cli/seedshim.c makes std's RandomState keys a function of VERIF_HASH_SEED, so a failing seed fails every time) and once free-running; all outputs must be byte-identical.",
          "trusted: structural equality of formulas; the hash-seed dimension of the determinism half is a fixed enumerated seed list (3 quick / 11 thorough), not all keys, which is stated in the evidence", "4 C18"),
  "C20": ("exhaustive enumeration of argument permutations x direct/directory placements on the real CLI against a reference role rule",
-         "For each file set all permutations of the argument list and all ways of giving files directly or through up to two directories are run with --no-proof-search --save-problems; the emitted problem files must be byte-identical to those of the canonical call computed by the reference rule; swapping the programs of a strong task must exchange forward and backward.",
+         "For each file set all permutations of the argument list and all ways of giving files directly or through up to two directories are run with --no-proof-search --save-problems; the emitted problem files must be byte-identical to those of the canonical call computed by the reference rule; swapping the programs of a strong task, and of an external task over two programs, must exchange forward and backward; where several .spec/.ug/.po files are given any of them is an admissible choice (the property does not say which).",
          "trusted: the reference role rule in cli/c20_roles.py, written from the property statement", "4 C20"),
 })
 
